@@ -83,7 +83,7 @@ def worker_main(prop_module_name):
         t0 = time.time()
         c0 = time.process_time()
         try:
-            with cpu_budget(msg.get("cpu", 120)):
+            with cpu_budget(case.get("_cpu") if isinstance(case, dict) and case.get("_cpu") else msg.get("cpu", 120)):
                 res = mod.run_case(case)
         except CpuTimeout as e:
             res = {"status": "hang", "detail": str(e), "trace": traceback.format_exc()[-1500:]}
